@@ -85,7 +85,26 @@ EdgeCoverPaths(A) ==
   LET t == SPTo(A)  f == SPFrom(A)
   IN {t[q] \o f[q] : q \in A.first} \cup
      UNION {{t[p] \o <<q>> \o f[q] : q \in A.follow[p]} : p \in Pos(A)}
+\* the same, restricted to every stride-th edge (a deterministic thinning for very dense automata)
+KeepEdge(p, q, stride) == ((p * 7 + q) % stride) = 0
+EdgeCoverPathsS(A, stride) ==
+  LET t == SPTo(A)  f == SPFrom(A)
+  IN {t[q] \o f[q] : q \in A.first} \cup
+     UNION {{t[p] \o <<q>> \o f[q] : q \in {x \in A.follow[p] : KeepEdge(p, x, stride)}} : p \in Pos(A)}
 EdgeCoverWords(A) == {[i \in DOMAIN pth |-> A.lab[pth[i]]] : pth \in EdgeCoverPaths(A)}
+
+\* pump: for every follow edge that closes a cycle, a shortest accepted path that goes round that cycle twice
+\* (repeated groups: harmony chords, part-group brackets, MIDI device / instrument pairs, ...)
+PathsFrom(A, q) == BfsTo(A, {q}, [x \in {q} |-> <<q>>])          \* position -> shortest path from q, starting with q
+PumpPaths(A) ==
+  LET t == SPTo(A)  f == SPFrom(A)
+  IN UNION {{t[p] \o PathsFrom(A, q)[p] \o <<q>> \o f[q] : q \in {x \in A.follow[p] : p \in DOMAIN PathsFrom(A, x)}} : p \in Pos(A)}
+PumpWords(A) == {[i \in DOMAIN pth |-> A.lab[pth[i]]] : pth \in PumpPaths(A)}
+PumpPathsS(A, stride) ==
+  LET t == SPTo(A)  f == SPFrom(A)
+  IN UNION {{t[p] \o PathsFrom(A, q)[p] \o <<q>> \o f[q] :
+                q \in {x \in A.follow[p] : KeepEdge(p, x, stride) /\ p \in DOMAIN PathsFrom(A, x)}} : p \in Pos(A)}
+WordsOfPaths(A, ps) == {[i \in DOMAIN pth |-> A.lab[pth[i]]] : pth \in ps}
 
 \* ---------------------------------------------------------------------------
 \* the same machinery over code-point classes (xs:pattern): a label is a
